@@ -152,6 +152,12 @@ class Pseudo2NetCDF:
             if isinstance(pvar, NetCDFVariable):
                 pvar = pvar[...]
             nvar[...] = pvar
+        elif (
+            isinstance(pvar[...], MaskedArray) and
+            isinstance(nvar, MaskedArray)
+        ):
+            # in-memory masked target keeps the mask
+            nvar[:] = pvar[...]
         elif isinstance(pvar[...], MaskedArray):
             nvar[:] = pvar[...].filled(getattr(nvar, 'fill_value', getattr(
                 nvar, '_FillValue', getattr(pvar, 'missing_value', -9999))))
